@@ -788,6 +788,24 @@ func (a *Analysis) failedClosesDuring(op *OpResult, unreportedOnly bool) int {
 			continue
 		}
 		if unreportedOnly && ow.Kind == OwScope {
+			// another caller's Close of the owner or of one of its ancestors that ran at the same time and
+			// returned a disposal error may be the one that reported this failure (it waits for the
+			// watcher and takes its error over): then it has not been lost
+			reportedElsewhere := false
+			for _, y := range a.ops {
+				if y == op || !(y.Op.Kind == OpClose || y.Op.Kind == OpFinish) || !y.Done || y.Handle <= 0 || !hasClass(y.Classes, EDisposal) {
+					continue
+				}
+				if y.EndSeq < ev.Seq || y.StartSeq > op.EndSeq {
+					continue
+				}
+				if y.Handle == ow.ID || a.descendantOf(ow.ID, y.Handle) {
+					reportedElsewhere = true
+				}
+			}
+			if reportedElsewhere {
+				continue
+			}
 			// a watcher woken by the caller's own cancellation of a context has nobody to report to,
 			// and that is nobody else's business: only watchers woken by this very Close count
 			userCancelled := false
